@@ -1125,6 +1125,115 @@ def fam_prefix(cross=False):
 
 
 # ------------------------------------------------------------------------------------------------------------
+# the spelling of a prefix value.  The same directory can be written in several ways; the clause "prefix-dependent directory
+# defaults follow the prefix" speaks about the directory that is the prefix, not about one way of writing it.  Only texts whose
+# meaning POSIX fixes without looking at the file system are generated (see same_path): no '..', no leading '//', no
+# backslash (an ordinary character of a POSIX file name), no '~'.
+#   canonical p | slash p/ | slash2 p// | dot p/. | inner: the first inner separator doubled (/usr//local; none in /usr)
+PREFIX_SPELLINGS = ['canonical', 'slash', 'slash2', 'dot', 'inner']
+
+
+def spell_prefix(p, how):
+    if how == 'canonical':
+        return p
+    if how == 'slash':
+        return p + '/'
+    if how == 'slash2':
+        return p + '//'
+    if how == 'dot':
+        return p + '/.'
+    if how == 'inner':
+        i = p.find('/', 1)
+        return None if i < 0 else p[:i] + '/' + p[i:]
+    raise InternalError('bad prefix spelling ' + how)
+
+
+def fam_prefix_spelling(cross=False, dict_form=False):
+    """Every non-empty subset of the sources of the prefix x rotation of the three prefixes over the sources x every
+    non-canonical spelling, applied to every source / to the winning source only / to the losing sources only, x the
+    directory options set by no source, by the lowest or by the highest one.  Expected: the effective prefix is the directory
+    the winning source named, and every directory option that no source set has the documented default for that directory."""
+    IDX = {'P': 0, 'M': 1, 'C': 2}
+    dirs = SPECIAL_DIRS + ['bindir']
+    for psub in subsets(['P', 'M', 'C']):
+        if not psub:
+            continue
+        win = highest(['P', 'M', 'C'], psub)
+        for how in PREFIX_SPELLINGS[1:]:
+            for mode in (['all'] if len(psub) == 1 else ['all', 'winner', 'others']):
+                for a in range(3):
+                    for dsub in ([], ['P'], ['C']):
+                        scn = new_scn(cross, False)
+                        scn['dict_form'] = dict_form
+                        pp, dp, spelled = {}, {}, {}
+                        for s in ['P', 'M', 'C']:
+                            if s in dsub:
+                                for dn in dirs:
+                                    put(scn, s, dn, DIRVALS[(IDX[s] + a) % 3])
+                                dp[s] = DIRVALS[(IDX[s] + a) % 3]
+                            if s in psub:
+                                p = PREFIXES[(IDX[s] + a) % 3]
+                                h = how if (mode == 'all' or (mode == 'winner') == (s == win)) else 'canonical'
+                                text = spell_prefix(p, h)
+                                if text is None:
+                                    text, h = p, 'canonical'        # (/usr has no inner separator)
+                                put(scn, s, 'prefix', text)
+                                pp[s] = p
+                                spelled[s] = h
+                        if mode != 'others' and spelled[win] == 'canonical':
+                            continue        # the winner cannot be spelled this way: the case is one of another mode / of fam_prefix
+                        prefix = ref_top(pp, DEFAULT_PREFIX)
+                        scn['obs'] = [['top', 'prefix']] + [['top', dn] for dn in dirs]
+                        exp = {'top:prefix': ['samepath', prefix]}
+                        for dn in dirs:
+                            if dp:
+                                exp['top:' + dn] = ['eq', ref_top(dp, None)]
+                            elif dn in SPECIAL_DIRS:
+                                exp['top:' + dn] = ['follows', dn, prefix, 'top:prefix']
+                            else:
+                                exp['top:' + dn] = ['eq', ref_dir_default(dn, prefix)]
+                        yield {'fam': 'prefix-spelling', 'scn': scn, 'exp': exp, 'reject': 'mustnot',
+                               'meta': {'prefix_sources': psub, 'dir_sources': dsub, 'a': a, 'how': spelled[win], 'mode': mode,
+                                        'spelled': spelled, 'winner': win, 'prefix': prefix, 'table_row': prefix in DIR_BY_PREFIX,
+                                        'nsrc': len(psub) + len(dsub)}}
+
+
+def fam_prefix_configure(cross=False, states=None):
+    """`meson configure` as a source of the prefix (Builtin-options.md: "They can also be edited after setup using meson configure
+    -Doption=value"): after a setup whose prefix is the default or was given by one source, the prefix is changed to another
+    directory, in every spelling of the path and every spelling of the command-line entry: the command succeeds and the effective
+    prefix is the directory it named.  No directory option is ever set explicitly; each keeps the default it got at setup or
+    takes the documented one for the new prefix (weak)."""
+    if states is None:
+        states = [(None, None)] + [(s, p) for s in ('P', 'M', 'C') for p in PREFIXES]
+    for s0, p0 in states:
+        eff0 = p0 or DEFAULT_PREFIX
+        for p1 in PREFIXES:
+            if p1 == eff0:
+                continue
+            for how in PREFIX_SPELLINGS:
+                text = spell_prefix(p1, how)
+                if text is None:
+                    continue
+                for style in ('D',) + FLAG_STYLES:
+                    scn = new_scn(cross, False)
+                    if s0:
+                        put(scn, s0, 'prefix', p0)
+                    scn['confcmd'] = [[['prefix', text, style]]]
+                    scn['obs'] = [['top', 'prefix']] + [['top', dn] for dn in SPECIAL_DIRS]
+                    exp = {'top:prefix': ['eq', eff0], 'cc0:ok': ['eq', True], 'cc0:top:prefix': ['samepath', p1]}
+                    for dn in SPECIAL_DIRS:
+                        exp['top:' + dn] = ['eq', ref_dir_default(dn, eff0)]
+                        # the option has had a value since the setup: whether a later change of the prefix gives it the default
+                        # for the new prefix again is not said anywhere (it is a statement about the life of a build directory)
+                        both = [ref_dir_default(dn, eff0)] + [x for x in [ref_dir_default(dn, p1)] if x != ref_dir_default(dn, eff0)]
+                        exp['cc0:top:' + dn] = ['in', both] if len(both) > 1 else ['eq', both[0]]
+                    yield {'fam': 'prefix-configure', 'scn': scn, 'exp': exp, 'reject': 'mustnot',
+                           'meta': {'setup_source': s0, 'setup_prefix': eff0, 'prefix': p1, 'how': how, 'cstyle': style,
+                                    'table_row': p1 in DIR_BY_PREFIX, 'nsrc': 1 + (1 if s0 else 0)}}
+
+
+# ------------------------------------------------------------------------------------------------------------
 # invalid values.  (class, value, typed_only)
 INVALID = {
     'vstr':   [('wrong-type', 5, True), ('wrong-type', True, True), ('wrong-type', ['l'], True)],
@@ -1299,6 +1408,12 @@ def classify(case, okey, e, got):
     scn = case['scn']
     parts = okey.split(':')
     where, name = parts[-2], parts[-1]
+    if e[0] in ('samepath', 'follows'):
+        # the prefix was given in the spelling meta['how'] by the sources meta['prefix_sources'] / by meson configure
+        how = case['meta'].get('how', '-')
+        if e[0] == 'follows':
+            return 'C07:prefix:spelled-%s:directory-default-does-not-follow-the-prefix' % how
+        return 'C07:prefix:spelled-%s:effective-prefix-is-another-path' % how
     acceptable = [e[1]] if e[0] == 'eq' else e[1]
     if got in ('.', ['.']) and any(x in ('', []) for x in acceptable):
         return 'C07:value:empty-value-of-builtin-option-becomes-dot'
@@ -1343,6 +1458,46 @@ def classify(case, okey, e, got):
     return 'C07:value:%s:%s:%s' % (fam, where, (k['type'] if k else name))
 
 
+def same_path(a, b):
+    """Do two absolute POSIX path texts name the same directory whatever the file system holds?  (POSIX pathname resolution:
+    repeated slashes count as one, a trailing slash and a '.' component change nothing for a directory.  '..' components and
+    exactly two leading slashes are not decided by the text alone: such texts are not generated.)"""
+    def comps(x):
+        return [c for c in x.split('/') if c not in ('', '.')]
+    return isinstance(a, str) and isinstance(b, str) and a.startswith('/') and not a.startswith('//') and b.startswith('/') and \
+        '..' not in comps(a) + comps(b) and comps(a) == comps(b)
+
+
+def acceptable_of(e, got, obs):
+    """One expectation -> (acceptable values | None when nothing can be said, compared strongly?, text for the message).
+      ['eq', v]                      the value v
+      ['in', [v...]]                 one of several readings of the documentation (weak)
+      ['samepath', p]                a prefix given in another spelling of the path p: Meson may store p or a text that names the
+                                     same directory (docs silent on normalisation); p itself counts as strong
+      ['follows', dir, p, okey]      a prefix-dependent directory default where the prefix is p, possibly spelled otherwise
+                                     (Builtin-options.md "When the prefix is /usr: sysconfdir defaults to /etc ..."): if the
+                                     effective prefix observed under okey IS p the documented default for p, strongly; if it is
+                                     another spelling of p, the default for p or the general default (weak)"""
+    if e[0] == 'eq':
+        return [e[1]], True, repr(e[1])
+    if e[0] == 'in':
+        return e[1], False, 'one of %r' % (e[1],)
+    if e[0] == 'samepath':
+        if same_path(got, e[1]):
+            return [got], got == e[1], ''
+        return [e[1]], True, '%r or another spelling of that path' % e[1]
+    if e[0] == 'follows':
+        dn, p, pkey = e[1], e[2], e[3]
+        gp = obs.get(pkey, '<<missing>>')
+        if gp == p:
+            return [ref_dir_default(dn, p)], True, '%r, the documented default of %s when the prefix is %s (observed prefix %r)' % (
+                ref_dir_default(dn, p), dn, p, gp)
+        if same_path(gp, p):
+            return [ref_dir_default(dn, p), ref_dir_default(dn, None)], False, 'the default of %s for prefix %s or the general one' % (dn, p)
+        return None, False, ''
+    raise InternalError('bad expectation %r' % (e,))
+
+
 def judge(case, res, tier):
     """-> (problems [(key, what)], stats dict)"""
     probs = []
@@ -1377,12 +1532,14 @@ def judge(case, res, tier):
             st['skipped'] += 1
             continue
         got = res['obs'].get(okey, '<<missing>>')
-        acceptable = [e[1]] if e[0] == 'eq' else e[1]
-        if got in acceptable and type(got) in [type(x) for x in acceptable if x == got]:
-            st['strong' if e[0] == 'eq' else 'weak'] += 1
+        acceptable, strong, how = acceptable_of(e, got, res['obs'])
+        if acceptable is None:
+            st['skipped'] += 1      # depends on another observation that is itself reported as wrong
+        elif got in acceptable and type(got) in [type(x) for x in acceptable if x == got]:
+            st['strong' if strong else 'weak'] += 1
         else:
-            probs.append((classify(case, okey, e, got), '%s: expected %s %r, observed %r (tier %s, %s)' % (
-                okey, 'one of' if e[0] == 'in' else '', acceptable if e[0] == 'in' else e[1], got, tier, json.dumps(meta, default=repr))))
+            probs.append((classify(case, okey, e, got), '%s: expected %s, observed %r (tier %s, %s)' % (
+                okey, how, got, tier, json.dumps(meta, default=repr))))
     # every observed effective value is a valid value of the option that was asked for
     for okey, got in res['obs'].items():
         parts = okey.split(':')
@@ -1669,6 +1826,10 @@ def tier_a_tasks(ck):
     specs.append(('fam_buildtype_sub', dict(max_sources=2)))
     for cross in (False, True):
         specs.append(('fam_prefix', dict(cross=cross)))
+        specs.append(('fam_prefix_spelling', dict(cross=cross, dict_form=cross)))
+        if ck.thorough:
+            specs.append(('fam_prefix_spelling', dict(cross=cross, dict_form=not cross)))
+        specs.append(('fam_prefix_configure', dict(cross=cross)))
         specs.append(('fam_invalid', dict(cross=cross)))
         specs.append(('fam_conf', dict(cross=cross)))
     # ---- the spelling of the command-line source (-Dname=value | --name=value | --name value | --name)
@@ -1679,6 +1840,7 @@ def tier_a_tasks(ck):
             form = dict(dict_form=cross, mstr=cross) if not ck.thorough else dict(dict_form=(style == 'sp'), mstr=not cross)
             specs.append(('fam_flagged', dict(base='fam_top', style=style, names=flaggable, cross=cross, decoy=cross, **form)))
             specs.append(('fam_flagged', dict(base='fam_prefix', style=style, cross=cross)))
+            specs.append(('fam_flagged', dict(base='fam_prefix_spelling', style=style, cross=cross, dict_form=not cross)))
             specs.append(('fam_flagged', dict(base='fam_invalid', style=style, cross=cross)))
             if ck.thorough or (style == 'sp') == cross:
                 specs.append(('fam_flagged', dict(base='fam_sub', style=style, mode='bsub', names=persub_f, cross=cross, **form)))
@@ -1718,10 +1880,21 @@ def spelling_counters(case):
     return sorted(out)
 
 
+def prefix_counters(case):
+    """Coverage counters of the prefix-spelling dimension: <command>:<source that gives the effective prefix>:<its spelling>:<does the
+    documented table have a row for that prefix>, counted where no source sets the directory options (the defaults are visible)."""
+    m = case['meta']
+    if case['fam'].startswith('prefix-spelling') and not m['dir_sources']:
+        return ['setup:%s:%s:%s' % (m['winner'], m['how'], 'table-row' if m['table_row'] else 'other-prefix')]
+    if case['fam'] == 'prefix-configure':
+        return ['configure:%s:%s' % (m['how'], 'table-row' if m['table_row'] else 'other-prefix')]
+    return []
+
+
 def work_a_task(task):
     (gname, kwargs), shard = task
     agg = {'n': 0, 'skipped_cases': 0, 'classes': set(), 'fams': {}, 'tot': {}, 'multi': 0, 'late_rej': 0, 'problems': [], 'sample': None,
-           'spell': {}}
+           'spell': {}, 'pspell': {}}
     perkey = {}
     cases = list(globals()[gname](**kwargs))
     mine = [c for i, c in enumerate(cases) if i % NSHARD == shard]
@@ -1743,6 +1916,8 @@ def work_a_task(task):
             agg['late_rej'] += 1
         for sk in spelling_counters(case):
             agg['spell'][sk] = agg['spell'].get(sk, 0) + 1
+        for sk in prefix_counters(case):
+            agg['pspell'][sk] = agg['pspell'].get(sk, 0) + 1
         if agg['sample'] is None and case['meta'].get('nsrc', 0) >= 3:
             agg['sample'] = {'scn': case['scn'], 'expected': case['exp']}
         if probs:
@@ -1823,6 +1998,19 @@ def tier_b_cases(ck):
     out += list(fam_prefix())
     if ck.thorough:
         out += list(fam_prefix(cross=True))
+    # ---- the spelling of the prefix value: every source alone in every spelling of every prefix; several sources with one
+    # rotation (quick) / all (thorough); the directory options set by nobody (quick) / also by a source (thorough)
+    ps = list(fam_prefix_spelling(dict_form=bool(seed % 2)))
+    ps += [c for style in FLAG_STYLES for c in fam_flagged('fam_prefix_spelling', style)]
+    if not ck.thorough:
+        ps = [c for c in ps if not c['meta']['dir_sources'] and c['meta']['mode'] == 'all' and
+              (len(c['meta']['prefix_sources']) == 1 or c['meta']['a'] == seed % 3) and
+              ('cstyle' not in c['meta'] or (c['meta']['prefix_sources'] == ['C'] and c['meta']['table_row']))]
+    out += ps
+    pc = list(fam_prefix_configure(states=None if ck.thorough else [(None, None), ('C', '/opt/px')]))
+    if not ck.thorough:
+        pc = [c for n, c in enumerate(pc) if c['meta']['cstyle'] == (('D',) + FLAG_STYLES)[(n // 3 + seed) % 3]]
+    out += pc
     iv = [c for c in fam_invalid() if 'skip' not in c]
     if not ck.thorough:
         iv = [c for c in iv if c['meta']['other'] is None]
@@ -2056,6 +2244,18 @@ def work_pin(case):
     return case['id'], probs
 
 
+def require_prefix_spelling(ck, pspell, tier, sources, hows):
+    """Anti-vacuity of the prefix-spelling dimension: every source gave the effective prefix in every non-canonical spelling, for a
+    prefix that has a row in the documented table (only there can a default fail to follow), and so did meson configure."""
+    for how in hows:
+        for src in sources:
+            if how != 'canonical':
+                ck.require(pspell.get('setup:%s:%s:table-row' % (src, how), 0) > 0,
+                           'prefix spelling: no tier %s setup in which source %s gives a /usr-like prefix spelled %s' % (tier, src, how))
+        ck.require(pspell.get('configure:%s:table-row' % how, 0) > 0,
+                   'prefix spelling: no tier %s meson configure giving a /usr-like prefix spelled %s' % (tier, how))
+
+
 def main():
     ck = Check('C07', 'exploration')
     if ck.args.replay:
@@ -2075,8 +2275,11 @@ def main():
         multi = late_rej = stores = 0
         sample = None
         spell = {}
+        pspell = {}
         pending = []
         for (sp, sh), agg in zip(tasks, pmap(work_a_task, tasks)):
+            for k, v in agg['pspell'].items():
+                pspell[k] = pspell.get(k, 0) + v
             stores += agg['n']
             skipped_cases += agg['skipped_cases']
             classes |= agg['classes']
@@ -2118,6 +2321,9 @@ def main():
         for fn in ('top-flag', 'sub-bsub-flag', 'permachine-flag', 'prefix-flag', 'invalid-top-flag', 'buildtype-top-flag',
                    'buildtype-configure', 'configure-flag'):
             ck.require(flag_fams.get(fn, 0) > 0, 'spelling dimension: family %s is empty' % fn)
+        ck.part('tierA_prefix_spelling', families={fn: fv['cases'] for fn, fv in fams.items() if fn.startswith(('prefix-spelling', 'prefix-configure'))},
+                spellings=PREFIX_SPELLINGS, cases_by_command_source_spelling_row=dict(sorted(pspell.items())))
+        require_prefix_spelling(ck, pspell, 'A', ('P', 'M', 'C'), PREFIX_SPELLINGS)
         ck.require(multi > 1000, 'too few multi-source cases in tier A')
         ck.require(late_rej > 0, 'no pending (late) invalid value was exercised')
         ck.require(tot['rejected_invalid'] > 100 and tot['weak'] > 0 and tot['strong'] > 10000, 'tier A comparison counters')
@@ -2163,6 +2369,13 @@ def main():
             ck.require(spell.get(need, 0) > 0, 'spelling dimension: no tier B case of class ' + need)
         for fn in ('top-flag', 'permachine-flag', 'prefix-flag', 'invalid-top-flag', 'buildtype-top-flag', 'buildtype-configure', 'configure-flag'):
             ck.require(flag_fams.get(fn, 0) > 0, 'spelling dimension: tier B family %s is empty' % fn)
+        pspell = {}
+        for case in cases:
+            for sk in prefix_counters(case):
+                pspell[sk] = pspell.get(sk, 0) + 1
+        ck.part('tierB_prefix_spelling', families={fn: fv['setups'] for fn, fv in fams.items() if fn.startswith(('prefix-spelling', 'prefix-configure'))},
+                cases_by_command_source_spelling_row=dict(sorted(pspell.items())))
+        require_prefix_spelling(ck, pspell, 'B', ('P', 'M', 'C'), PREFIX_SPELLINGS)
         ck.require(len(cases) > 500, 'too few tier B setups')
         ck.require(agree > 0, 'tier A / tier B cross-validation never ran')
         files, argv = b_tree(cases[len(cases) // 2]['scn'])
@@ -2210,6 +2423,13 @@ def main():
     ck.assume('the spelling of a command-line entry (-Dname=value / --name=value / --name value / --name for a boolean) does not enter '
               'the precedence; which long flags exist is read from the parsers of meson setup / meson configure ("a list is shown by '
               'meson setup --help"); false cannot be said with a switch and the same option given in both spellings is an error: not generated')
+    ck.assume('a prefix written with trailing slash(es), a trailing /. or a doubled inner slash names the same directory (POSIX pathname '
+              'resolution); the docs do not say whether Meson normalises the text, so the effective prefix may be the plain path or any such '
+              'spelling of it; the directory defaults are compared with the documented table for the plain path when the effective prefix '
+              'is the plain path (strong), and may be the general defaults when Meson kept another spelling (weak); .., a leading //, '
+              'backslashes and ~ are not generated')
+    ck.assume('meson configure -Dprefix=...: the directory options that no source ever set may keep the default they got at setup or take '
+              'the documented default for the new prefix (weak); at setup they must follow the prefix')
     ck.assume('meson configure giving buildtype: explicit debug/optimization of the same command win; against an explicit value of an '
               'earlier command either outcome is accepted (weak), as for a lower-priority source')
     ck.assume('tier A replicates the two inline cross-build filtering steps of Environment.__init__; tier B runs the real thing')
@@ -2218,7 +2438,8 @@ def main():
     ck.finish(evaluations=evaluations, distinct_nontrivial=len(classes),
               rule='every subset of the documented sources (2^4 top level, 2^8 subproject) x option kinds x digit-scheme value assignments x '
                    'native/cross x spellings; buildtype/debug/optimization listings; prefix x directory sources; every invalid-value class '
-                   'from every source; the command-line source in every spelling (-Dname=value, --name=value, --name value, boolean '
+                   'from every source; the prefix in every spelling of the path (p, p/, p//, p/., doubled inner slash) from every source and '
+                   'from meson configure, all prefix-dependent directory defaults against the documented table; the command-line source in every spelling (-Dname=value, --name=value, --name value, boolean '
                    'switch) for meson setup and meson configure, buildtype/debug/optimization in every combination of spellings and '
                    'both orders; tier A on a real OptionStore, tier B through meson setup / meson configure. distinct_nontrivial = distinct '
                    '(tier, family, winning source | rejection stage) classes observed',
